@@ -755,7 +755,7 @@ def alloc_check(prop, tier):
                 "a page outside the window, a page inside, far away); enforced on the real allocator through the interposed mmap; "
                 "Mmap/Munmap/Installed events validated by TLC (Trace_Patch, Props={C11}); non-trivial = executed (not skipped)")
     run.assumptions = ["the interposed mmap policy stands in for the kernel's placement decisions", "x86-64 only natively; the arm64 encoder edge is covered by the simulated run of C15"]
-    for cfg in (["MC_Alloc_q"] if tier == "quick" else ["MC_Alloc_q", "MC_Alloc_t"]):
+    for cfg in (["MC_Alloc_q", "MC_Alloc_w", "MC_Alloc_wx"] if tier == "quick" else ["MC_Alloc_q", "MC_Alloc_w", "MC_Alloc_wx", "MC_Alloc_t"]):
         r = tlc.check("MC_Alloc", cfg, workers=TLC_WORKERS, timeout=3000)
         run.add_model(r, required_actions=("Try", "Exhausted"))
         if r["violation"]:
@@ -834,7 +834,119 @@ def alloc_check(prop, tier):
             c = cases[sid - 1]
             run.violation("C11 isa=arm64-linux d=%+#x accepted-by-allocator refused-by-encoder leaked=1" % c["d"],
                           {"case": c, "event": {k: ev1[0][k] for k in ("outcome", "msg", "alloc_accepts", "entry")}})
+    # the native runs once more, step by step against MC_Alloc's Try / Exhausted (events renamed, nothing inferred)
+    per = []
+    for sc in live:
+        if sc.get("mode") == "multi":
+            continue
+        evs = groups.get(sc["id"], [])
+        place = next((e for e in evs if e["ev"] == "Place"), None)
+        inst = next((e for e in evs if e["ev"] == "Installed"), None)
+        if not place or not inst or (inst["outcome"] == "panic" and inst["cls"] != "alloc-exhausted"):
+            continue
+        out = [{"ev": "AllocBegin", "src": place["func"], "r": [0, 0, 0, 8, 0, 0, 0, 0], "accept": "a64safe", "kernel": "mmap"}]
+        ntry = 0
+        for e in evs:
+            if e is inst:
+                break
+            if e["ev"] == "Mmap":
+                # requests answered "elsewhere" are both logged and counted in quiet_mmap
+                ntry += 0 if e.get("how") in ("occ-far", "occ-else") and inst.get("quiet_mmap", 0) else 1
+                out.append({"ev": "Try", "hint": e["hint"], "ret": e["ret"], "ok": bool(e["ok"])})
+            elif e["ev"] == "Munmap":
+                out.append({"ev": "Release", "addr": e["addr"], "ok": e["ret"] == 0})
+        if inst["outcome"] == "ok":
+            out.append({"ev": "Result", "outcome": "ok", "addr": inst["tramp"], "held": inst["live"], "tries": ntry + inst.get("quiet_mmap", 0)})
+        else:
+            out.append({"ev": "Result", "outcome": "panic", "addr": [0] * 8, "held": inst["live"], "tries": ntry + inst.get("quiet_mmap", 0)})
+        per.append((sc["id"], out))
+    tv3 = tlc.validate_traces("Trace_Alloc", "Trace_Alloc", per, WORK, "trace_alloc_native", timeout=3000)
+    run.traces += len(tv3["accepted"])
+    run.states += tv3["states"]
+    run.transitions += tv3["transitions"]
+    run.extra["native_step_by_step"] = {"scenarios": len(per), "accepted": len(tv3["accepted"])}
+    pero = dict(per)
+    for sid in tv3["ids"]:
+        if sid not in tv3["accepted"]:
+            reached, total = tv3["progress"][sid]
+            sc = byid[sid]
+            run.violation("C11 isa=x86_64 step-by-step free=%s occupied=%s else=%s page_off=%s base=%#x" % (
+                sc.get("free_deltas"), sc.get("occupied"), sc.get("elsewhere_delta"), sc["off"], sc["func_page"]),
+                {"scenario": sc, "trace_rejected_at": reached, "first_unmatched_event": pero[sid][reached] if reached < len(pero[sid]) else None,
+                 "events": pero[sid][max(0, reached - 6):reached + 2]})
+    windows_alloc_part(run, tier)
     return run.finish()
+
+
+def windows_alloc_part(run, tier):
+    """C11 on the Windows allocator: both architecture branches of allocate_jit_memory_windows, compiled on this host from
+    the repository's text against a simulated VirtualAlloc/VirtualFree (exact-or-fail at 64 KiB granularity); every run is
+    validated step by step against MC_Alloc's Try / Exhausted (Trace_Alloc); accepted placements are then handed to the
+    real entry-branch encoders (simulated memory) and executed on the ISA models."""
+    rnd = vlib.rnd("winalloc")
+    scen = []
+
+    def add(arch, src, **kw):
+        scen.append(dict(id=len(scen) + 1, arch=arch, src=src, **kw))
+    for arch, RB in (("a64", 0x8000000 // 0x10000), ("x64", 0x80000000 // 0x10000)):
+        srcs = [0x7ff6_1234_0000, 0x7ff6_1234_7800, 0x7ff6_1234_fff0, 0x1_4000_1000, 0x40_1000,
+                (0x8000000 if arch == "a64" else 0x80000000) - 0x10000 + 0x100, 0x20_0000 + 4]
+        edges = [-RB - 1, -RB, -RB + 1, -1, 1, RB - 1, RB, RB + 1]
+        for src in srcs:
+            add(arch, src, free_blocks=[])
+            add(arch, src, all_free=True)
+            for e in edges:
+                add(arch, src, free_blocks=[e])
+            for a, b in ((-RB, RB), (-RB - 1, RB + 1), (RB, RB + 1), (-RB - 1, -RB), (-RB - 1, RB - 1)):
+                add(arch, src, free_blocks=[a, b])
+            for _ in range(2 if tier == "quick" else 12):
+                add(arch, src, free_blocks=sorted(rnd.sample(range(-RB - 3, RB + 4), 3)))
+    groups, order, _ = vlib.run_harness("winsim", scen, "winsim_C11", timeout=3000)
+    tv = tlc.validate_traces("Trace_Alloc", "Trace_Alloc", [(sc["id"], groups.get(sc["id"], [])) for sc in scen], WORK, "trace_winalloc", timeout=3000)
+    run.traces += len(tv["accepted"])
+    run.states += tv["states"]
+    run.transitions += tv["transitions"]
+    outcomes = {"ok": 0, "panic": 0}
+    accepted = {"a64": set(), "x64": set()}
+    for sc in scen:
+        evs = groups.get(sc["id"], [])
+        res = next((e for e in evs if e["ev"] == "Result"), None)
+        run.note_case("windows %s src=%#x free=%s" % (sc["arch"], sc["src"], "all" if sc.get("all_free") else sc.get("free_blocks")))
+        if res:
+            outcomes[res["outcome"]] += 1
+            if res["outcome"] == "ok":
+                accepted[sc["arch"]].add((sc["src"], int.from_bytes(bytes(res["addr"]), "little")))
+        if sc["id"] not in tv["accepted"]:
+            reached, total = tv["progress"].get(sc["id"], (0, -1))
+            run.violation("C11 isa=windows-%s src=%#x free=%s" % (sc["arch"], sc["src"], "all" if sc.get("all_free") else sc.get("free_blocks")),
+                          {"scenario": sc, "trace_rejected_at": reached, "first_unmatched_event": evs[reached] if reached < len(evs) else None,
+                           "events": evs[max(0, reached - 6):reached + 2]})
+    if outcomes["ok"] == 0 or outcomes["panic"] == 0:
+        raise ToolError("vacuity guard: Windows allocator outcomes %s" % outcomes)
+    # join with the encoders: every (function, accepted block) pair, through the real entry-branch emitters
+    cases = []
+    for src, tramp in sorted(accepted["a64"]):
+        cases.append({"isa": "a64-linux", "kind": "jump", "src": src & ~3, "tramp": tramp, "fake": 0x1234567890, "v": 0, "alloc_accepts": True})
+    for src, tramp in sorted(accepted["x64"]):
+        cases.append({"isa": "x64-sim", "kind": "jump", "src": src, "tramp": tramp, "fake": 0x7ff600001000, "v": 0, "alloc_accepts": True})
+    g2, o2, _ = vlib.run_harness("sim", [{"id": 1, "cases": cases}], "sim_C11w", timeout=600)
+    per = []
+    for cse, e in zip(cases, g2.get(1, [])):
+        e = dict(e)
+        e["alloc_accepts"] = True
+        per.append((len(per) + 1, [e]))
+    cfgs = tlc.make_cfg("Trace_Sim", {"Props": '{"C11", "ALL"}'}, "Trace_Sim_C11w")
+    tv2 = tlc.validate_traces("Trace_Sim", cfgs, per, WORK, "trace_sim_C11w", timeout=600)
+    run.traces += len(tv2["accepted"])
+    run.states += tv2["states"]
+    run.transitions += tv2["transitions"]
+    for sid, ev1 in per:
+        if sid not in tv2["accepted"]:
+            cse = cases[sid - 1]
+            run.violation("C11 isa=windows-%s d=%+#x accepted-by-allocator not-reached-by-encoder" % ("a64" if cse["isa"] == "a64-linux" else "x64", cse["tramp"] - cse["src"]),
+                          {"case": cse, "event": {k: ev1[0].get(k) for k in ("outcome", "msg", "entry")}})
+    run.extra["windows_allocator"] = {"layouts": len(scen), "accepted_traces": len(tv["accepted"]), "outcomes": outcomes,
+                                      "encoder_join_cases": len(cases), "encoder_join_accepted": len(tv2["accepted"])}
 
 
 # =============================================================== call budget (C06)
@@ -1714,6 +1826,7 @@ DEVIATIONS = [
     ("MC_Times", "MC_Times_q", {"Compare": '"gt"'}, ("Budget", "Accounting")),
     ("MC_Alloc", "MC_Alloc_q", {"Branch": '"a64"'}, ("InReach",)),
     ("MC_Alloc", "MC_Alloc_q", {"UnmapRejected": "FALSE"}, ("NoLeftover",)),
+    ("MC_Alloc", "MC_Alloc_w", {"AcceptTest": '"le"'}, ("InReach",)),
     ("MC_Geom", "MC_Geom_q", {"RangeTest": '"offByOne"'}, ("OnPath", "Arrives", "InRange")),
     ("MC_Geom", "MC_Geom_q", {"MprotectSpan": '"firstPage"'}, ("NoFault",)),
     ("MC_Geom", "MC_Geom_q", {"EndOffset": "0"}, ("OnPath", "Arrives", "InRange")),
